@@ -22,12 +22,13 @@ ASSUMPTIONS = ["SoC configurations enumerated (bus standard wishbone/axi-lite, C
                "cpu_type=None: interrupt numbers are not exercised; constants are compared textually between the exported formats",
                "get_mem_data: files of 1..9 bytes, data width 32/64, both endiannesses, file reads stubbed by symbolic bytes"]
 BOUNDS = {"quick": "3 SoC configurations (default, paging 0x400, little ordering), BMC K=30 (46 with the 8-bit CSR bus) cycles per accessor sequence, witness: a 4-operation sequence completes; get_mem_data lengths 1..6", "thorough": "8 SoC configurations; get_mem_data lengths 1..9, 64-bit words"}
-OUTSIDE = "SoCs with a real CPU (IRQ vectors, CPU-specific csr_decode); SVD output (not parsed); linker scripts"
+OUTSIDE = "SoCs with a real CPU (IRQ vectors, CPU-specific csr_decode); get_memory_x (needs a CPU reset address); SVD/mem.h/linker regions/soc.h/CSV are cross-checked textually against the JSON map (whose addresses are the ones decided against the hardware), not driven through the bus separately"
 FUNCS = ["litex.soc.integration.export.get_csr_json", "litex.soc.integration.export.get_csr_header", "litex.soc.integration.export._generate_csr_read_function_c",
          "litex.soc.integration.export._generate_csr_write_function_c", "litex.soc.integration.export.get_csr_csv", "litex.soc.integration.export.get_mem_header",
          "litex.soc.integration.soc.SoC.finalize", "litex.soc.integration.soc.SoC.add_csr_bridge", "litex.soc.integration.soc.SoCCSRHandler.address_map",
          "litex.soc.integration.soc_core.SoCCore", "litex.soc.interconnect.csr_bus.CSRBankArray", "litex.soc.interconnect.csr_bus.CSRBank", "litex.soc.interconnect.csr_bus.SRAM",
-         "litex.soc.integration.common.get_mem_data"]
+         "litex.soc.integration.common.get_mem_data", "litex.soc.integration.export.get_csr_svd", "litex.soc.integration.export.get_linker_regions", "litex.soc.integration.export.get_soc_header",
+         "litex.soc.integration.export._generate_csr_field_definitions_c/_generate_csr_field_accessors_c", "litex.soc.integration.builder.Builder._initialize_rom_software", "litex.soc.integration.soc.SoC.init_ram/init_rom"]
 
 NOPS = 4
 _PERIPH = {}
